@@ -34,7 +34,7 @@ import warnings
 
 import core  # noqa: F401
 from c20_endpoint import endpoint
-from rdflib import BNode, ConjunctiveGraph, Dataset, Graph, Literal, URIRef
+from rdflib import BNode, ConjunctiveGraph, Dataset, Graph, Literal, URIRef, Variable
 from rdflib.graph import DATASET_DEFAULT_GRAPH_ID
 from rdflib.namespace import XSD
 from rdflib.plugins.stores.sparqlstore import SPARQLStore, SPARQLUpdateStore, _node_to_sparql
@@ -51,7 +51,8 @@ RULE = ("random histories (3-11 ops) of add / addN / pattern remove / remove_gra
         "commit / rollback (incl. repeated identical writes inside one uncommitted batch) and reads (8 pattern shapes, len, "
         "in, contexts, query, LIMIT/OFFSET slices; named-graph and default-graph reads interleaved) against a "
         "loop-back SPARQL endpoint, through Graph / Dataset / ConjunctiveGraph / read-only Dataset, method GET|POST|"
-        "POST_FORM x xml|json x autocommit x dirty_reads x extra params/headers given to the store; non-trivial = at least one write reached the endpoint and "
+        "POST_FORM x xml|json x autocommit x dirty_reads x extra params/headers x auth x sparql11 x context_aware x "
+        "construction by open()/plugin name (surface audit: design.d/C20.md); non-trivial = at least one write reached the endpoint and "
         "at least one read returned a non-empty answer; distinct = distinct (configuration, init, ops)")
 ASSUMPTIONS = [
     "the loop-back endpoint (harness/c20_endpoint.py over rdflib's own SPARQL engine, C04/C10) implements the "
@@ -152,21 +153,30 @@ def _mask(rng, t):
 
 
 def gen_case(rng, tier, i):
+    boost = 2.5 if tier == "thorough" else 1.0      # share of the surface-audit streams
     cfg = rng.choice(["graph"] * 3 + ["ds"] * 5 + ["cg"] + ["ro"])
     autocommit = rng.random() < 0.4
     dirty = rng.random() < 0.4
     hook = rng.random() < 0.1
+    # ---- configuration axes of the public surface (surface audit, design.d/C20.md)
+    open_mode = rng.choice([0, 0, 0, 0, 0, 1, 2, 3]) if rng.random() < 0.35 * boost else 0
+    auth = rng.random() < 0.08 * boost
+    sparql11 = not (rng.random() < 0.04 * boost)
+    ca = not (cfg == "graph" and rng.random() < 0.08 * boost)
+    norm = not (rng.random() < 0.04 * boost)
     bn = hook or rng.random() < 0.12
     objs = rng.sample(OBJ_IDS, rng.randint(2, 5))
     if rng.random() < 0.5:
         objs += rng.sample([20, 21, 22, 23], 2)  # falsy / look-alike literals
     named = [90, 91] + ([rng.choice([92, 93])] if rng.random() < 0.4 else [])
     graphs = [G0] if cfg == "graph" else [0] + named   # graphs the history may address
+    if cfg == "graph" and ca and rng.random() < 0.25 * boost:
+        graphs = [G0, G0, 91]      # a second Graph object over the same store, interleaved with the first
     all_graphs = [0] + named
 
     def wgraph():  # graph for a write / read
         if cfg == "graph":
-            return G0
+            return rng.choice(graphs)
         return rng.choice(graphs if rng.random() < 0.8 else [0, 90])
 
     present = []
@@ -197,7 +207,16 @@ def gen_case(rng, tier, i):
             k = rng.random()
             if k < 0.30:
                 t = _triple(rng, objs, bn) if rng.random() < 0.8 else some_triple()
-                ops.append(["add"] + t + [g, rng.randint(0, 1)])
+                via = rng.randint(0, 1)
+                if cfg == "ds" and g != 0 and rng.random() < 0.06 * boost:
+                    via = 2        # the quad's graph is a Graph object of ANOTHER store
+                x = rng.random()
+                if x < 0.05 * boost and not (cfg == "cg" and g == 0):
+                    ops.append(["set"] + t + [g])
+                elif x < 0.09 * boost and not (cfg == "cg" and g == 0):
+                    ops.append(["iadd", [t] + ([_triple(rng, objs, False)] if rng.random() < 0.5 else []), g])
+                else:
+                    ops.append(["add"] + t + [g, via])
                 present.append(t + [g])
             elif k < 0.40:
                 qs = []
@@ -234,21 +253,38 @@ def gen_case(rng, tier, i):
                 lops = [l for l in lops if not any(x in BNODES for row in (l[1] if l[0] != "W" else [l[1]]) for x in row if x)]
                 if lops:
                     style = rng.choice([0, 1, 2, 3, 5])
+                    if rng.random() < 0.08 * boost:
+                        style = 7                      # initNs given, not used by the text
+                    elif autocommit and rng.random() < 0.08 * boost:
+                        style = 6                      # prefixed names resolved through initNs
                     if rng.random() < 0.3:
                         w = ["W", _mask(rng, some_triple(g))]
                         w[1] = [x if x not in BNODES else None for x in w[1]]
                         if any(x is not None for x in w[1]):
                             lops, style = [w], 4
                     ops.append(["update", g, lops, style])
-            elif k < 0.91:
+            elif k < 0.90:
                 ops.append(["commit"])
-            else:
+            elif k < 0.97 or rng.random() > 0.5 * boost:
                 ops.append(["rollback"])
+            else:   # calls that neither read nor write: re-open, close, bind, switching method / result format
+                ops.append(["nop", rng.choice(["reopen", "close", "bind", "method:GET", "method:POST", "method:POST_FORM",
+                                               "format:xml", "format:json"])])
         else:  # ---- reads
             k = rng.random()
-            if k < 0.38:
+            if rng.random() < 0.05 * boost and cfg != "graph":
+                # the store's own projections (subjects, predicate_objects, …): the endpoint's default graph
+                kind = rng.choice(["subjects", "predicates", "objects", "subject_predicates", "subject_objects",
+                                   "predicate_objects"])
+                t = some_triple(0)
+                t = [x if x not in BNODES else None for x in t]
+                free = {"subjects": (0,), "predicates": (1,), "objects": (2,), "subject_predicates": (0, 1),
+                        "subject_objects": (0, 2), "predicate_objects": (1, 2)}[kind]
+                pat = [None if (j in free or rng.random() < 0.3) else t[j] for j in range(3)]
+                ops.append(["proj", kind] + pat)
+            elif k < 0.38:
                 ops.append(["triples"] + _mask(rng, some_triple(g)) + [g, rng.randint(0, 2)])
-            elif k < 0.48:
+            elif k < 0.48 and sparql11:
                 ops.append(["len", g])
             elif k < 0.62:
                 t = some_triple(g)
@@ -259,8 +295,12 @@ def gen_case(rng, tier, i):
                             (list(rng.choice(falsy)) if falsy and rng.random() < 0.6 else some_triple())])
             elif k < 0.93:
                 kind = rng.choice(["spo", "pfx", "bind", "bind2", "ask", "named"])
+                if rng.random() < 0.10 * boost:
+                    kind = "construct"
                 if kind == "named" and cfg == "graph":
                     kind = "spo"
+                if not sparql11 and kind in ("bind", "bind2"):
+                    kind = "spo"       # initBindings are refused for SPARQL 1.0 endpoints (documented)
                 t = some_triple(g)
                 t = [x if x not in BNODES else 1 for x in t]
                 ops.append(["query", kind, g, t])
@@ -269,10 +309,12 @@ def gen_case(rng, tier, i):
                 p = [x if x not in BNODES else None for x in p]
                 if None not in p and rng.random() < 0.5:
                     p[rng.randint(0, 2)] = None
+                ob = rng.choice(["x", "s", "p", "o"]) if rng.random() < 0.3 * boost else "-"
                 if None in p:
-                    ops.append(["slice"] + p + [g, rng.choice([None, 1, 2, 5]), rng.choice([None, 0, 1, 2])])
-                else:   # fully bound (ASK) under a LIMIT
-                    ops.append(["slice"] + p + [g, rng.choice([1, 2, 5]), None])
+                    lim, off = rng.choice([None, 1, 2, 5]), rng.choice([None, 0, 1, 2])
+                    ops.append(["slice"] + p + [g, lim, off, ob])
+                else:   # fully bound (ASK) under a LIMIT / an "ORDER BY" attribute
+                    ops.append(["slice"] + p + [g, rng.choice([1, 2, 5]), None, ob])
     # ---- repeated IDENTICAL writes inside one uncommitted batch (each queues the very same request text):
     #      add/remove/add, remove/add/remove of one triple, the same addN / update twice, duplicates in addN
     if cfg != "ro" and rng.random() < 0.3:
@@ -316,17 +358,32 @@ def gen_case(rng, tier, i):
             ops[at:at] = alt
     if not autocommit and rng.random() < 0.6:
         ops.append(rng.choice([["commit"], ["rollback"], ["len", wgraph()]]))
-    return {"cfg": cfg, "method": rng.choice(["GET", "POST", "POST_FORM"]), "fmt": rng.choice(["xml", "json"]),
+    case = {"cfg": cfg, "method": rng.choice(["GET", "POST", "POST_FORM"]), "fmt": rng.choice(["xml", "json"]),
             "autocommit": autocommit, "dirty": dirty, "hook": hook, "extra": extra, "init": init, "ginit": ginit,
-            "ops": ops}
+            "ops": ops, "open": open_mode, "auth": auth, "sparql11": sparql11, "ca": ca, "norm": norm}
+    if not case["autocommit"]:     # prefixed-name texts are only decodable alone: autocommit
+        for o in case["ops"]:
+            if o[0] == "update" and o[3] == 6:
+                o[3] = 7
+    if not sparql11:     # len and initBindings are refused for SPARQL 1.0 endpoints (documented): not driven
+        case["ops"] = [o for o in ops if o[0] != "len" and not (o[0] == "update" and o[3] == 4)
+                       and not (o[0] == "query" and o[1] in ("bind", "bind2"))] or [["commit"]]
+    if open_mode == 3:   # Graph("SPARQLUpdateStore") + open(): the store is built by the plugin registry with defaults
+        case.update(method="GET", fmt="xml", autocommit=True, hook=False, extra=0, auth=False, sparql11=True, ca=True)
+        if cfg == "ro":
+            case["open"] = 2
+    return case
 
 
 # ------------------------------------------------------------------ mapping API level -> store level
 
 
-def ctx_of(cfg, kind, g):
+def ctx_of(cfg, kind, g, ca=True):
     """the store-level graph an API call addresses: number, 0 (endpoint default graph) or None (no context).
-    Follows Graph.add/…, ConjunctiveGraph._spoc/.triples/.remove, Dataset (default_union False)."""
+    Follows Graph.add/…, ConjunctiveGraph._spoc/.triples/.remove, Dataset (default_union False); a store that is
+    not context aware (`context_aware=False`) addresses the endpoint's default graph whatever the graph is called."""
+    if not ca:
+        return 0
     if cfg == "cg" and g == 0 and kind == "write":
         return G0            # ConjunctiveGraph.add(triple) writes to its default_context, named <g0>
     return g
@@ -378,59 +435,80 @@ def model_lines(case):
     for g in case.get("ginit", []):
         lines.append(f"ginit {g}")
     for op in case["ops"]:
-        k = op[0]
-        if k == "add":
-            lines.append(f"add {op[1]} {op[2]} {op[3]} {_g(ctx_of(cfg, 'write', op[4]))}")
-        elif k == "addN":
-            lines.append(" ".join(["addN"] + [f"{q[0]} {q[1]} {q[2]} {_g(ctx_of(cfg, 'write', q[3]))}" for q in op[1]]))
-        elif k == "remove":
-            g = "*" if op[4] is None else _g(op[4])
-            lines.append(f"remove {_w(op[1])} {_w(op[2])} {_w(op[3])} {g}")
-        elif k == "remove_graph":
-            lines.append(f"rgraph {_g(op[1])}")
-        elif k == "graph":
-            lines.append(f"cgraph {op[1]}")
-        elif k == "update":
-            toks = []
-            for l in op[2]:
-                if l[0] in ("I", "D"):
-                    toks += [l[0], str(len(l[1]))] + [str(x) for t in l[1] for x in t]
-                else:
-                    toks += ["W"] + [_w(x) for x in l[1]]
-            lines.append(" ".join(["update", _g(op[1])] + toks))
-        elif k in ("commit", "rollback"):
-            lines.append(k)
-        elif k == "triples":
-            lines.append(f"triples {_w(op[1])} {_w(op[2])} {_w(op[3])} {_g(op[4])}")
-        elif k == "len":
-            lines.append(f"len {_g(op[1])}")
-        elif k == "contains":
-            lines.append(f"contains {_w(op[1])} {_w(op[2])} {_w(op[3])} {_g(op[4])}")
-        elif k == "contexts":
-            lines.append("contexts" if op[1] is None else "contexts " + " ".join(str(x) for x in op[1]))
-        elif k == "query":
-            kind, g, t = op[1], op[2], op[3]
-            if kind == "spo":
-                lines.append(f"triples * * * {_g(g)}")
-            elif kind == "pfx":
-                lines.append(f"triples * 10 * {_g(g)}")
-            elif kind == "bind":
-                lines.append(f"triples * * {t[2]} {_g(g)}")
-            elif kind == "bind2":
-                lines.append(f"triples {t[0]} * {t[2]} {_g(g)}")
-            elif kind == "ask":
-                lines.append(f"contains {t[0]} {t[1]} {t[2]} {_g(g)}")
-            else:
-                lines.append("namedquads")
-        elif k == "slice":
-            lines.append(f"slice {_w(op[1])} {_w(op[2])} {_w(op[3])} {_g(op[4])} "
-                         f"{'-' if op[5] is None else op[5]} {'-' if op[6] is None else op[6]}")
-        else:
-            lines.append("unknown-op")
-        lines.append("obs")
-        lines.append("sent")
-        lines.append("senttext")
+        for cmd in op_commands(case, op):
+            lines.append(cmd)
+            lines.append("obs")
+            lines.append("sent")
+            lines.append("senttext")
     return lines
+
+
+def op_commands(case, op):
+    """the model command(s) one API call amounts to (Graph.set = remove + add, an add whose graph is a Graph object
+    of another store = a look-up of the dataset's graphs + add)"""
+    cfg = case["cfg"]
+    ca = case.get("ca", True)
+    C = lambda kind, g: ctx_of(cfg, kind, g, ca)  # noqa: E731
+    k = op[0]
+    if k == "add":
+        add = f"add {op[1]} {op[2]} {op[3]} {_g(C('write', op[4]))}"
+        return ["contexts", add] if op[5] == 2 else [add]
+    if k == "addN":
+        return [" ".join(["addN"] + [f"{q[0]} {q[1]} {q[2]} {_g(C('write', q[3]))}" for q in op[1]])]
+    if k == "iadd":
+        uniq = [list(t) for t in dict.fromkeys(tuple(t) for t in op[1])]    # the operand is a Graph: a set
+        return [" ".join(["addN"] + [f"{t[0]} {t[1]} {t[2]} {_g(C('write', op[2]))}" for t in uniq])]
+    if k == "set":
+        s_, p_, o_, g = op[1:5]
+        rg = "*" if (cfg in ("ds", "cg", "ro") and g == 0) else _g(C("read", g))   # Dataset.set removes from every graph
+        return [f"remove {s_} {p_} * {rg}", f"add {s_} {p_} {o_} {_g(C('write', g))}"]
+    if k == "remove":
+        g = "*" if op[4] is None else _g(C("read", op[4]))
+        return [f"remove {_w(op[1])} {_w(op[2])} {_w(op[3])} {g}"]
+    if k == "remove_graph":
+        return [f"rgraph {_g(op[1])}"]
+    if k == "graph":
+        return [f"cgraph {op[1]}"]
+    if k == "update":
+        toks = []
+        for l in op[2]:
+            if l[0] in ("I", "D"):
+                toks += [l[0], str(len(l[1]))] + [str(x) for t in l[1] for x in t]
+            else:
+                toks += ["W"] + [_w(x) for x in l[1]]
+        return [" ".join(["update", _g(C("write", op[1]))] + toks)]
+    if k in ("commit", "rollback"):
+        return [k]
+    if k == "nop":
+        return ["nop"]
+    if k == "triples":
+        return [f"triples {_w(op[1])} {_w(op[2])} {_w(op[3])} {_g(C('read', op[4]))}"]
+    if k == "proj":
+        return [f"triples {_w(op[2])} {_w(op[3])} {_w(op[4])} -"]
+    if k == "len":
+        return [f"len {_g(C('read', op[1]))}"]
+    if k == "contains":
+        return [f"contains {_w(op[1])} {_w(op[2])} {_w(op[3])} {_g(C('read', op[4]))}"]
+    if k == "contexts":
+        return ["contexts" if op[1] is None else "contexts " + " ".join(str(x) for x in op[1])]
+    if k == "query":
+        kind, g, t = op[1], _g(C("read", op[2])), op[3]
+        if kind in ("spo", "construct"):
+            return [f"triples * * * {g}"]
+        if kind == "pfx":
+            return [f"triples * 10 * {g}"]
+        if kind == "bind":
+            return [f"triples * * {t[2]} {g}"]
+        if kind == "bind2":
+            return [f"triples {t[0]} * {t[2]} {g}"]
+        if kind == "ask":
+            return [f"contains {t[0]} {t[1]} {t[2]} {g}"]
+        return ["namedquads"]
+    if k == "slice":
+        ob = op[7] if len(op) > 7 else "-"
+        return [f"slice {_w(op[1])} {_w(op[2])} {_w(op[3])} {_g(C('read', op[4]))} "
+                f"{'-' if op[5] is None else op[5]} {'-' if op[6] is None else op[6]} {ob}"]
+    return ["unknown-op"]
 
 
 def _model_blocks(case, out):
@@ -440,19 +518,46 @@ def _model_blocks(case, out):
     return [tuple(body[i:i + 4]) for i in range(0, len(body) - 3, 4)]
 
 
-def _blank_user_queries(op, sent):
-    """`query` ops send the caller's own text.  Pattern queries (with or without the VALUES block of initBindings)
-    are decoded like the store's own; a prefixed name or a GRAPH pattern is outside the reader's fragment and is
-    compared as `Q?` (the pre-read commit still counts)"""
-    if op[0] != "query" or op[1] not in ("pfx", "named") or sent == "-":
-        return sent
-    return " | ".join("Q?" if r.startswith("Q") else r for r in sent.split(" | "))
+def _merge_blocks(case, blocks):
+    """one (result, endpoint obs, predicted requests, predicted texts) per API call"""
+    res, i = [], 0
+    for op in case["ops"]:
+        n = len(op_commands(case, op))
+        part = blocks[i:i + n]
+        i += n
+        if len(part) < n:
+            break
+        sent = [b[2] for b in part if b[2] != "-"]
+        txt = [b[3] for b in part if b[3] != "none"]
+        res.append((part[-1][0], part[-1][1], " | ".join(sent) if sent else "-", " ".join(txt) if txt else "none"))
+    return res
+
+
+PROJ_POS = {"subjects": (0,), "predicates": (1,), "objects": (2,), "subject_predicates": (0, 1),
+            "subject_objects": (0, 2), "predicate_objects": (1, 2)}
+
+
+def _blank_op(case, op):
+    """requests whose text is outside the reader's fragment are compared as `U?` / `Q?`"""
+    if op[0] == "query" and op[1] in ("pfx", "named", "construct"):
+        return "q"
+    if op[0] == "update" and op[3] == 6:
+        return "u"            # prefixed names (only generated with autocommit: the request holds this text alone)
+    return None
 
 
 def select_model_obs(case, out):
     res = []
-    for op, (o, e, sent, _txt) in zip(case["ops"], _model_blocks(case, out)):
-        res.append(f"{o} ; {e} ; SENT {_blank_user_queries(op, sent)}")
+    for op, (o, e, sent, _txt) in zip(case["ops"], _merge_blocks(case, _model_blocks(case, out))):
+        b = _blank_op(case, op)
+        if b and sent != "-":
+            sent = " | ".join(("Q?" if r.startswith("Q") else r) if b == "q" else ("U?" if r.startswith("U") else r)
+                              for r in sent.split(" | "))
+        if op[0] == "proj" and o.startswith("T"):
+            pos = PROJ_POS[op[1]]
+            rows = {tuple(int(t.split(",")[j]) for j in pos) for t in o[2:].split(" ") if t}
+            o = "P " + " ".join(",".join(map(str, x)) for x in sorted(rows))
+        res.append(f"{o} ; {e} ; SENT {sent}")
     return res
 
 
@@ -464,11 +569,9 @@ def ing_requests(case):
         if op[0] != "update" or op[3] == 4 or any(x in BNODES for x in _flat(op[2]) if isinstance(x, int)):
             continue
         g = op[1]
-        if cfg == "graph":
-            g = G0
-        if g == 0:
+        if g == 0 or not case.get("ca", True):
             continue
-        out.append((str(GNAME[g]), update_text(op[2], op[3], lambda x: TERM[x])))
+        out.append((str(GNAME[g]), update_text(op[2], 0 if op[3] == 7 else op[3], lambda x: TERM[x])))
     return out
 
 
@@ -497,7 +600,7 @@ def driver_session(case, captured):
     out = p.stdout.split("\n")
     if p.returncode != 0 or len(out) < len(lines):
         return None
-    blocks = _model_blocks(case, out[:n_model])
+    blocks = _merge_blocks(case, _model_blocks(case, out[:n_model]))
     dec = out[n_model:n_model + n_dec]
     # statistic: the Lean model of _insert_named_graph rewrites the caller's text character for character like the store
     sent_updates = [text for reqs in captured for kind, _g, text in reqs if kind == "u"]
@@ -537,13 +640,16 @@ def _fmt_names(ns):
 class Mirror:
     """the local dataset that receives the same calls ("the same effect as on a local graph")"""
 
-    def __init__(self, cfg, quads=(), names=()):
+    def __init__(self, cfg, quads=(), names=(), ca=True):
         self.ds = Dataset(default_union=False)
         for s, p, o, g in quads:
             (self.ds.default_graph if g is None else self.ds.get_context(g)).add((s, p, o))
         for g in names:
             self.ds.graph(g)
-        if cfg == "graph":
+        self.ca = ca
+        if cfg == "graph" and not ca:
+            self.top = self.ds.default_graph
+        elif cfg == "graph":
             self.top = Graph(store=self.ds.store, identifier=GNAME[G0])
         elif cfg == "cg":
             self.top = ConjunctiveGraph(store=self.ds.store, identifier=GNAME[G0])
@@ -571,6 +677,19 @@ def _kn(ns):
 
 
 def update_text(lops, style, term):
+    if style == 6:
+        plain = term
+
+        class _P:          # renders <http://e/NAME> as ex:NAME
+            def __init__(self, t):
+                self.t = t
+
+            def n3(self):
+                t = self.t
+                if isinstance(t, URIRef) and str(t).startswith(E) and re.fullmatch(r"[A-Za-z][A-Za-z0-9]*", str(t)[len(E):]):
+                    return "ex:" + str(t)[len(E):]
+                return t.n3()
+        term = lambda x: _P(plain(x))  # noqa: E731
     parts = []
     for l in lops:
         if l[0] in ("I", "D"):
@@ -619,19 +738,50 @@ def run_impl(case):
         kw["params"] = {"x-extra": "1"}
     if extra & 2:
         kw["headers"] = {"X-Extra": "1"}
-    if cfg == "ro":
-        store = SPARQLStore(ep.url + "/query", **kw)
+    ca = case.get("ca", True)
+    open_mode = case.get("open", 0)
+    if case.get("auth"):
+        kw["auth"] = ("user", "p:w d")
+    if not case.get("sparql11", True):
+        kw["sparql11"] = False
+    if not ca:
+        kw["context_aware"] = False
+    import rdflib as _rdflib
+    norm_before = _rdflib.NORMALIZE_LITERALS
+    _rdflib.NORMALIZE_LITERALS = case.get("norm", True)
+    q_url, u_url = ep.url + "/query", ep.url + "/update"
+    if open_mode == 2:
+        q_url = u_url = ep.url + "/sparql"          # one endpoint for both protocols
+    if open_mode == 3:       # built by the plugin registry from its name, then open()
+        if cfg == "graph":
+            top = Graph("SPARQLUpdateStore", identifier=GNAME[G0])
+        elif cfg == "cg":
+            top = ConjunctiveGraph("SPARQLUpdateStore", identifier=GNAME[G0])
+        else:
+            top = Dataset("SPARQLUpdateStore")
+        top.open((q_url, u_url))
+        store = top.store
     else:
-        store = SPARQLUpdateStore(ep.url + "/query", ep.url + "/update", autocommit=case["autocommit"],
-                                  dirty_reads=case["dirty"], **kw)
-    if cfg == "graph":
-        top = Graph(store, identifier=GNAME[G0])
-    elif cfg == "cg":
-        top = ConjunctiveGraph(store, identifier=GNAME[G0])
-    else:
-        top = Dataset(store)
+        if cfg == "ro":
+            store = SPARQLStore(None if open_mode else q_url, **kw)
+            if open_mode:
+                store.open(q_url)
+        else:
+            store = SPARQLUpdateStore(None if open_mode else q_url, None if open_mode else u_url,
+                                      autocommit=case["autocommit"], dirty_reads=case["dirty"], **kw)
+            if open_mode == 1:
+                store.open((q_url, u_url))
+            elif open_mode == 2:
+                store.open(q_url)
+        if cfg == "graph":
+            top = Graph(store, identifier=GNAME[G0])
+        elif cfg == "cg":
+            top = ConjunctiveGraph(store, identifier=GNAME[G0])
+        else:
+            top = Dataset(store)
+    cur = {"method": case["method"], "fmt": case["fmt"]}      # may be switched by `nop` operations
     ep.log.clear()
-    mirror = Mirror(cfg, ep.quads(), ep.graph_names())
+    mirror = Mirror(cfg, ep.quads(), ep.graph_names(), ca)
     autocommit = case["autocommit"] or cfg == "ro"
     dirty = case["dirty"]
     visible = (_kq(ep.quads()), _kn(ep.graph_names()))   # what the endpoint showed at the last flush
@@ -639,7 +789,10 @@ def run_impl(case):
     obs, viol = [], []
     stats = {"cases": 1, "cfg_" + cfg: 1, "method_" + case["method"]: 1, "fmt_" + case["fmt"]: 1,
              "autocommit": int(case["autocommit"]), "dirty": int(dirty), "hook": int(hook),
-             "extra_params": int(bool(case.get("extra", 0) & 1)), "extra_headers": int(bool(case.get("extra", 0) & 2))}
+             "extra_params": int(bool(case.get("extra", 0) & 1)), "extra_headers": int(bool(case.get("extra", 0) & 2)),
+             "axis_open_" + ["ctor", "open_pair", "open_single_endpoint", "plugin_name"][open_mode]: 1,
+             "axis_auth": int(bool(case.get("auth"))), "axis_sparql10": int(not case.get("sparql11", True)),
+             "axis_not_context_aware": int(not ca), "axis_normalize_literals_off": int(not case.get("norm", True))}
     reached, answered = cfg == "ro", False
     captured = []
 
@@ -649,7 +802,10 @@ def run_impl(case):
     def view(t, g):
         """the Graph object an API call on graph g goes through"""
         if cfg == "graph":
-            return t
+            if g == G0 or not ca:
+                return t
+            bump("axis_second_graph_object_same_store")
+            return Graph(t.store, identifier=GNAME[g])       # another Graph object over the same store
         if g == 0:
             return t if cfg == "cg" else t.default_graph
         return t.get_context(GNAME[g])
@@ -662,16 +818,52 @@ def run_impl(case):
             s, p, o, g, via = op[1:]
             tr = (T(s), T(p), T(o))
             if cfg == "graph":
-                t.add(tr)
+                view(t, g).add(tr)
             elif g == 0:
                 (t.add(tr) if via == 0 or cfg == "cg" else t.default_graph.add(tr))
             elif via == 0:
                 t.add(tr + (GNAME[g],))
+            elif via == 2:      # the graph of the quad is a Graph object of another (Memory) store
+                t.add(tr + (Graph(identifier=GNAME[g]),))
             else:
                 t.get_context(GNAME[g]).add(tr)
+        elif k == "set":
+            s, p, o, g = op[1:5]
+            tgt = t if (g == 0 and cfg != "graph") else view(t, g)
+            tgt.set((T(s), T(p), T(o)))
+        elif k == "iadd":
+            other = Graph()
+            for s, p, o in op[1]:
+                other.add((T(s), T(p), T(o)))
+            tgt = view(t, op[2]) if not (cfg == "cg" and op[2] == 0) else t
+            tgt += other
+        elif k == "nop":
+            what = op[1]
+            st_ = t.store
+            if isinstance(st_, (SPARQLStore,)):       # the mirror's Memory store has none of these switches
+                if what == "reopen":
+                    if isinstance(st_, SPARQLUpdateStore):
+                        st_.open((st_.query_endpoint, st_.update_endpoint))
+                    else:
+                        st_.open(st_.query_endpoint)
+                elif what == "close":
+                    t.close()
+                elif what == "bind":
+                    st_.bind("zz", URIRef("http://e/zz#"))
+                elif what.startswith("method:"):
+                    st_.method = what[7:]
+                    cur["method"] = what[7:]
+                elif what.startswith("format:"):
+                    st_.returnFormat = what[7:]
+                    cur["fmt"] = what[7:]
         elif k == "addN":
             if cfg == "graph":
-                t.addN([(T(s), T(p), T(o), t) for s, p, o, g in op[1]])
+                by = {}
+                for s, p, o, g in op[1]:
+                    by.setdefault(g, []).append((T(s), T(p), T(o)))
+                for g, trs in by.items():
+                    v = view(t, g)
+                    v.addN([tr + (v,) for tr in trs])
             else:
                 def gid(g):
                     if g == 0:
@@ -682,7 +874,7 @@ def run_impl(case):
             s, p, o, g, via = op[1:]
             tr = (T(s), T(p), T(o))
             if cfg == "graph":
-                t.remove(tr)
+                view(t, g).remove(tr)
             elif g is None:
                 t.remove(tr)
             elif g == 0:
@@ -698,11 +890,15 @@ def run_impl(case):
             t.graph(GNAME[op[1]])
         elif k == "update":
             g, lops, style = op[1:]
-            tgt = t if (cfg == "graph" or (g == 0 and cfg != "cg")) else view(t, g)
+            tgt = t if (g == 0 and cfg not in ("cg", "graph")) else view(t, g)
             if style == 4:   # one DELETE/WHERE whose bound positions arrive as initBindings
                 pat = lops[0][1]
                 ib = {"abc"[i]: T(x) for i, x in enumerate(pat) if x is not None}
                 tgt.update("DELETE { ?a ?b ?c } WHERE { ?a ?b ?c }", initBindings=ib)
+            elif style == 6:  # prefixed names, resolved through initNs
+                tgt.update(update_text(lops, 6, T), initNs={"ex": E})
+            elif style == 7:  # initNs given, not used
+                tgt.update(update_text(lops, 0, T), initNs={"zz": "http://e/zz#"})
             else:
                 tgt.update(update_text(lops, style, T))
         elif k == "commit":
@@ -711,6 +907,7 @@ def run_impl(case):
             t.rollback()
 
     def expected(g, pat, B):
+        g = ctx_of(cfg, "read", g, ca)
         gname = None if g == 0 else GNAME[g]
         out = set()
         for s, p, o, c in B:
@@ -721,9 +918,16 @@ def run_impl(case):
     for k_i, op in enumerate(case["ops"]):
         k = op[0]
         bump("op_" + k)
-        is_read = k in ("triples", "len", "contains", "contexts", "query", "slice")
+        is_read = k in ("triples", "len", "contains", "contexts", "query", "slice", "proj")
+        internal_read = k == "add" and op[5] == 2     # ConjunctiveGraph._graph looks the dataset's graphs up first
         has_bn = any(isinstance(x, int) and x in BNODES for x in _flat(op))
         n_log = len(ep.log)
+        if k == "nop":
+            bump("axis_nop_" + op[1].split(":")[0])
+        if internal_read:
+            bump("axis_add_foreign_graph_object")
+        if k == "update" and op[3] in (6, 7):
+            bump("axis_update_initNs")
         out, exc = "ok", None
         result = None
         try:
@@ -761,12 +965,28 @@ def run_impl(case):
                 gs = list(top.graphs(tr)) if cfg in ("ds", "ro") else list(top.contexts(tr))
                 result = [c.identifier for c in gs if c.identifier != DATASET_DEFAULT_GRAPH_ID]
                 out = "G " + _fmt_names([_gid(x) for x in result])
+            elif k == "proj":
+                kind, s, p, o = op[1:]
+                a = {"subjects": (p, o), "predicates": (s, o), "objects": (s, p), "subject_predicates": (o,),
+                     "subject_objects": (p,), "predicate_objects": (s,)}[kind]
+                rows = list(getattr(store, kind)(*[term(x) for x in a]))
+                pos = {"subjects": (0,), "predicates": (1,), "objects": (2,), "subject_predicates": (0, 1),
+                       "subject_objects": (0, 2), "predicate_objects": (1, 2)}[kind]
+                result = [r if isinstance(r, tuple) else (r,) for r in rows]     # projections: duplicates are legitimate
+                out = "P " + " ".join(",".join(map(str, x)) for x in sorted({tuple(_tid(v) for v in r) for r in result}))
             elif k == "query":
                 kind, g, t3 = op[1:]
                 tgt = top if (g == 0 and cfg != "graph") else view(top, g)
+                dbg = {"DEBUG": True} if k_i % 3 == 0 else {}
+                if dbg:
+                    bump("axis_debug_flag")
                 if kind == "spo":
-                    rows = list(tgt.query("SELECT ?s ?p ?o WHERE { ?s ?p ?o }"))
+                    rows = list(tgt.query("SELECT ?s ?p ?o WHERE { ?s ?p ?o }", **dbg))
                     result = [(r[0], r[1], r[2]) for r in rows]
+                elif kind == "construct":
+                    bump("axis_query_construct")
+                    res = tgt.query("CONSTRUCT { ?s ?p ?o } WHERE { ?s ?p ?o }", **dbg)
+                    result = list(res.graph)
                 elif kind == "pfx":
                     rows = list(tgt.query("SELECT ?s ?o WHERE { ?s ex:p ?o }", initNs={"ex": E}))
                     result = [(r[0], PREDS[10], r[1]) for r in rows]
@@ -790,7 +1010,7 @@ def run_impl(case):
                 else:
                     out = _fmt_triples([(_tid(a), _tid(b), _tid(c)) for a, b, c in result])
             elif k == "slice":
-                s, p, o, g, lim, off = op[1:]
+                s, p, o, g, lim, off = op[1:7]
                 v = view(top, g) if not (cfg == "cg" and g == 0) else Graph(store, identifier=DATASET_DEFAULT_GRAPH_ID)
                 if v is top and cfg == "graph":
                     v = Graph(store, identifier=GNAME[G0])
@@ -798,10 +1018,14 @@ def run_impl(case):
                     v.LIMIT = lim
                 if off is not None:
                     v.OFFSET = off
+                ob = op[7] if len(op) > 7 else "-"
+                if ob != "-":
+                    bump("axis_slice_orderby_attr")
+                    setattr(v, "ORDER BY", Variable(ob) if ob in "spo" else ob)
                 try:
                     result = list(v.triples((term(s), term(p), term(o))))
                 finally:  # "Removes LIMIT and OFFSET if not required for the next triple() calls"
-                    for a in ("LIMIT", "OFFSET"):
+                    for a in ("LIMIT", "OFFSET", "ORDER BY"):
                         if hasattr(v, a):
                             delattr(v, a)
                 out = "ok"
@@ -842,13 +1066,14 @@ def run_impl(case):
             viol.append(f"refusal: op {k_i} {op} carries a blank node but was not refused ({out})")
         # ---- read-only store
         if cfg == "ro":
-            if not is_read and out != "ReadOnly":
+            if not is_read and k != "nop" and out != "ReadOnly":
                 viol.append(f"readonly: op {k_i} {op[0]} on a read-only SPARQLStore answered {out}")
             if (KB, KN) != visible:
                 viol.append(f"readonly: op {k_i} changed the endpoint")
 
         # ---- the mirror receives the same write
         wrote = False
+        KM_before = (_kq(mirror.quads()), _kn(mirror.names()))
         if cfg != "ro" and not is_read and k not in ("commit", "rollback") and out == "ok":
             try:
                 do_write(mirror.top, op, True)
@@ -874,9 +1099,15 @@ def run_impl(case):
             elif k == "rollback":
                 if (KB, KN) != visible:
                     viol.append(f"rollback: op {k_i} rollback() changed the endpoint")
-                mirror = Mirror(cfg, _unkey_quads(visible[0]), _unkey_names(visible[1]))
+                mirror = Mirror(cfg, _unkey_quads(visible[0]), _unkey_names(visible[1]), ca)
             elif is_read and not dirty:
                 same("readflush", "a read without dirty_reads must first make queued writes visible")
+                visible = (KB, KN)
+            elif internal_read and not dirty:
+                # the call reads (the dataset's graphs) before it writes: what was queued BEFORE it becomes visible
+                if (KB, KN) != KM_before:
+                    viol.append(f"readflush: op {k_i} add (graph object of another store: the dataset looks its graphs "
+                                f"up first) must make the writes queued before it visible, and only those")
                 visible = (KB, KN)
             else:   # queued write, or dirty read
                 if (KB, KN) != visible:
@@ -888,12 +1119,20 @@ def run_impl(case):
         # ---- reads return exactly what the endpoint's dataset contains
         if is_read and exc is None and not has_bn:
             bump("read_results", len(result) if isinstance(result, list) else 1)
-            if k == "triples" or (k == "query" and op[1] in ("spo", "pfx", "bind", "bind2")):
+            if k == "proj":
+                want = {tuple(t[j] for j in PROJ_POS[op[1]]) for t in expected(0, op[2:5], B)}
+                got = {tuple(tkey(v) for v in r) for r in result}
+                if got != want:
+                    viol.append(f"read: op {k_i} store.{op[1]} returned {sorted(got - want, key=repr)[:2]} extra, "
+                                f"{sorted(want - got, key=repr)[:2]} missing w.r.t. the endpoint's default graph")
+                answered |= bool(got)
+            elif k == "triples" or (k == "query" and op[1] in ("spo", "pfx", "bind", "bind2", "construct")):
                 if k == "triples":
                     pat, g = op[1:4], op[4]
                 else:
                     g = op[2]
-                    pat = {"spo": [None, None, None], "pfx": [None, 10, None], "bind": [None, None, op[3][2]],
+                    pat = {"spo": [None, None, None], "construct": [None, None, None], "pfx": [None, 10, None],
+                           "bind": [None, None, op[3][2]],
                            "bind2": [op[3][0], None, op[3][2]]}[op[1]]
                 want = expected(g, pat, B)
                 got = [(tkey(a), tkey(b), tkey(c)) for a, b, c in result]
@@ -929,7 +1168,7 @@ def run_impl(case):
                     viol.append(f"read: op {k_i} named-graph query returned {len(got)} rows, endpoint has {len(want)} named quads")
                 answered |= bool(got)
             elif k == "slice":
-                s, p, o, g, lim, off = op[1:]
+                s, p, o, g, lim, off = op[1:7]
                 want = expected(g, [s, p, o], B)
                 got = [(tkey(a), tkey(b), tkey(c)) for a, b, c in result]
                 n_want = max(0, len(want) - (off or 0))
@@ -943,16 +1182,20 @@ def run_impl(case):
         for ent in ep.log[n_log:]:
             bump("http_requests")
             if ent["path"] == "/query":
-                via = {"GET": "get", "POST": "direct", "POST_FORM": "form"}[case["method"]]
+                via = {"GET": "get", "POST": "direct", "POST_FORM": "form"}[cur["method"]]
                 if ent.get("via") != via or ent["method"] != ("GET" if via == "get" else "POST"):
-                    viol.append(f"transport: op {k_i} query sent via {ent['method']}/{ent.get('via')}, configured {case['method']}")
-                if ent.get("format") not in (None, case["fmt"]) and not ent.get("error"):
-                    viol.append(f"transport: op {k_i} result format {ent.get('format')} served, configured {case['fmt']}")
+                    viol.append(f"transport: op {k_i} query sent via {ent['method']}/{ent.get('via')}, configured {cur['method']}")
+                if ent.get("format") not in (None, cur["fmt"]) and not ent.get("error"):
+                    viol.append(f"transport: op {k_i} result format {ent.get('format')} served, configured {cur['fmt']}")
             elif ent["path"] == "/update":
                 if ent["method"] != "POST" or ent.get("via") not in ("direct", "form"):
                     viol.append(f"transport: op {k_i} update not sent by POST")
             if not ent.get("utf8", True):
                 viol.append(f"transport: op {k_i} request body is not UTF-8")
+            want_auth = "Basic dXNlcjpwOncgZA==" if case.get("auth") else None     # base64("user:p:w d")
+            if ent.get("auth") != want_auth:
+                viol.append(f"transport: op {k_i} Authorization header arrived as {ent.get('auth')!r}, "
+                            f"the store was built with auth={kw.get('auth')}")
             if ent.get("x_param", []) != (["1"] if extra & 1 else []):
                 viol.append(f"transport: op {k_i} extra request parameter arrived as {ent.get('x_param')}, "
                             f"the store was built with params={kw.get('params')}")
@@ -978,8 +1221,9 @@ def run_impl(case):
             continue
         dec, mtxt = sess[k_i]
         reqs = captured[k_i]
-        if op[0] == "query" and op[1] in ("pfx", "named"):
-            dec = ["Q?" if kind == "q" else d for d, (kind, _g, _t) in zip(dec, reqs)]
+        bl = _blank_op(case, op)
+        if bl:
+            dec = [("Q?" if bl == "q" else "U?") if kind == bl else d for d, (kind, _g, _t) in zip(dec, reqs)]
         sent = " | ".join(dec) if dec else "-"
         mt = [] if mtxt == "none" else mtxt.split(" ")
         # character-for-character comparison with the Lean writers: a statistic, NOT part of obs — another
@@ -992,6 +1236,7 @@ def run_impl(case):
         bump("requests_decoded", len(reqs))
         obs[k_i] += f" ; SENT {sent}"
 
+    _rdflib.NORMALIZE_LITERALS = norm_before
     return {"obs": obs, "viol": viol, "nontrivial": bool(reached and answered),
             "key": repr((cfg, case["method"], case["fmt"], case["autocommit"], case["dirty"], case["hook"],
                          case.get("extra", 0), case["init"], case["ops"])),
